@@ -59,25 +59,26 @@ type frame struct {
 
 // Exec executes one path of one harness.
 type Exec struct {
-	P          *Program
-	B          *Builder
-	X          *Explorer
-	globals    map[*ssa.Global]*Object
-	nextObj    int
-	depth      int
-	steps      int
-	pending    []*pendingGo // spawned goroutines not yet run
-	curG       int          // id of running goroutine (0 = main)
-	nextG      int
-	ghost      map[string]interface{}
-	events     []string // notable events on this path (recovered panics…)
-	gevents    []ghostEvent
-	fresh      map[string]int
-	clockFloor *Term
-	spec       int // >0 while speculatively evaluating a pure region
-	watchObj   map[*Object]*mutexGhost
-	watchMap   map[*MapObj]*mutexGhost
-	watchOn    bool
+	P           *Program
+	B           *Builder
+	X           *Explorer
+	globals     map[*ssa.Global]*Object
+	nextObj     int
+	depth       int
+	steps       int
+	pending     []*pendingGo // spawned goroutines not yet run
+	curG        int          // id of running goroutine (0 = main)
+	nextG       int
+	ghost       map[string]interface{}
+	events      []string // notable events on this path (recovered panics…)
+	gevents     []ghostEvent
+	fresh       map[string]int
+	clockFloor  *Term
+	ctxChildren []*ctxGhost
+	spec        int // >0 while speculatively evaluating a pure region
+	watchObj    map[*Object]*mutexGhost
+	watchMap    map[*MapObj]*mutexGhost
+	watchOn     bool
 	// hooks
 	fnNames map[*ssa.Function]string
 }
@@ -145,6 +146,9 @@ func (ex *Exec) goPanicRuntime(msg string) {
 func (ex *Exec) call(caller *frame, f *Func, args []Value, site ssa.Instruction) Value {
 	if f.Builtin != nil {
 		return ex.callBuiltin(caller, f.Builtin, args, site)
+	}
+	if f.Model != nil {
+		return f.Model(ex, caller, args)
 	}
 	if f.Fn == nil {
 		ex.goPanicRuntime("nil pointer dereference (nil func call)")
